@@ -6,7 +6,6 @@ package c04
 import (
 	"fmt"
 	"os"
-	"reflect"
 	"runtime/debug"
 	"strings"
 	"testing"
@@ -438,8 +437,8 @@ func runCase(c Case, r *runlog.R) error {
 	r.ClassIf(facts.mapk, "type: map")
 	r.ClassIf(facts.inline, "type: inline")
 	r.ClassIf(facts.dur, "type: duration")
-	for k := range facts.cats {
-		r.Class("type: " + k)
+	for _, k := range catKinds {
+		r.ClassIf(facts.cats[k], "type: "+k)
 	}
 	return nil
 }
@@ -497,8 +496,6 @@ func showGo(t *gen.Tree) string {
 	return fmt.Sprintf("%v", t.Prim())
 }
 
-var _ = reflect.TypeOf
-
 var subTwin = runlog.Register(&runlog.Sub[Case]{
 	Name: "twin-differential",
 	Rule: "random struct types (reflect.StructOf over all primitive kinds, named variants, durations, regexps, pointers, slices, arrays, string-keyed maps, nested and inline structs, and 8 hand-written catalogue types with Validate()/InitDefaults/own tags) with validate tags (required, nonzero, positive, min=N, max=N incl. duration parameters, singly or in pairs) on about a third of the fields whose kind the documentation defines them for, at any depth; a pre-filled value (zero value in 1 of 6 cases); a configuration built from the type that mentions about half of the fields (explicit nil settings included); with VarExp (1 of 3) about a fifth of the settings are delivered through ${rN} references. Oracle: unpack configuration and pre-filled value into the twin type (no tags, no Validate methods) to get R; reference validators (documented meaning, applied through non-nil pointers) walk R; all accept => Unpack into the real type succeeds with a result equal to R; one rejects => Unpack fails and the message quotes the path of a rejected field or of an enclosing one; tags of a collection field whose elements are not structs are also applied to the elements and such element-level rejections alone allow either verdict; whenever Unpack returns nil the returned value itself is walked. Non-trivial: a deciding validator (a rejecting one, or any if all accept) judges a value the configuration does not mention (default / InitDefaults) or sits behind a pointer, inside a collection or in an inline field. Distinct: hash of (type, pre-filled value, configuration, VarExp).",
@@ -506,6 +503,6 @@ var subTwin = runlog.Register(&runlog.Sub[Case]{
 	Run:  runCase,
 })
 
-func TestTwinDifferential(t *testing.T) { subTwin.Check(t, 50000, 3000000) }
+func TestTwinDifferential(t *testing.T) { subTwin.Check(t, 250000, 3000000) }
 
 func TestReplay(t *testing.T) { runlog.ReplayMain(t) }
